@@ -90,10 +90,19 @@ Definition allowed_id_readers : list (string * string) :=
   [ ("autolayout.go", "Layout");                                   (* copies the ID to the output *)
     ("autolayout_options_funcs.go", "WithNodeSize");               (* looks the ID up in the caller's size map *)
     ("internal/phase4/network_simplex.go", "*networkSimplexProcessor.auxiliaryGraph");  (* copies it to the auxiliary node *)
-    ("internal/processor/preprocessor/ignore_self_loops.go", "IgnoreSelfLoops") ].     (* log message *)
+    ("internal/processor/preprocessor/ignore_self_loops.go", "IgnoreSelfLoops");      (* log message *)
+    ("internal/graph/dgraph.go", "*DGraph.String");                 (* printers: debugging output only *)
+    ("internal/graph/edge.go", "*Edge.String");
+    ("internal/graph/node.go", "*Node.String");
+    ("internal/graph/node.go", "*Node.SVG") ].
 
 Definition id_reads_allowed : bool :=
   forallb (fun r => existsb (pair_eqb r) allowed_id_readers) id_reads.
+
+(* the same for the files under one directory: the models of the phases contain no identifier, so a phase whose code
+   starts reading Node.ID is no longer described by its model *)
+Definition id_reads_allowed_in (dir : string) : bool :=
+  forallb (fun r => negb (String.prefix dir (fst r)) || existsb (pair_eqb r) allowed_id_readers) id_reads.
 
 (* the caller's data — the edge list handed to Populate, the size map handed to WithNodeSize — is never written:
    element writes through parameters (or through elements ranged out of them) occur only inside internal
